@@ -16,13 +16,14 @@ ARGV = [b"", b"x", b"a.b", b"a.b.c", b"/", b"/a", b"/a/", b"/a/b", b"com.example
 DEFAULT_WEIGHTS = {
     "connect": 4, "hello": 6, "close": 2, "request": 14, "release": 7, "query": 6, "addmatch": 8, "removematch": 4,
     "signal": 12, "call": 12, "reply": 8, "driver_edge": 5, "forged": 6, "garbage": 1, "badtype": 2, "nodest": 2, "sleep": 0, "monitor": 0,
-    "hostile": 0, "preauth": 0, "fdsend": 0, "stall": 0, "unstall": 0,
+    "hostile": 0, "preauth": 0, "fdsend": 0, "stall": 0, "unstall": 0, "frozen": 0,
 }
 
 
 class Gen:
     def __init__(self, rng, weights=None, max_conns=5, uids=(0,), fdpass=False, names=None, rule_uniques=True, big=None, maxfds=16,
-                 no_eavesdrop=False):
+                 no_eavesdrop=False, bigheader=0):
+        self.bigheader = bigheader
         self.maxfds = maxfds
         self.no_eavesdrop = no_eavesdrop
         self.stalled = set()
@@ -115,6 +116,39 @@ class Gen:
                 t = wiregen.gen_type(self.r, 1); tys.append(t); vals.append(wiregen.gen_val(self.r, t, 1))
         return "".join(wiregen.sig(t) for t in tys), vals
 
+    def do_frozen(self):
+        """a batch the daemon finds all at once (it is held while the clients act): messages between peers and hang-ups,
+        often calls to a connection that hangs up in the same batch"""
+        n0 = len(self.ops)
+        victims = [c for c, v in self.open.items() if v["active"] and v["unique"]]
+        if victims and len(self.open) >= 2 and self.r.random() < 0.65:
+            v = self.r.choice(victims)
+            vname = self.open[v]["unique"]
+            others = [c for c, x in self.open.items() if c != v and x["active"]]
+            acts = []
+            for _ in range(self.r.choice([1, 1, 2, 3])):
+                if others:
+                    a = self.r.choice(others)
+                    dest = vname if self.r.random() < 0.6 else self.r.choice(self.names)
+                    s = self.serial(a)
+                    m = method_call(s, dest.decode(), self.r.choice(PATHS).decode(), self.r.choice(IFACES).decode(), self.r.choice(MEMBERS).decode(),
+                                    "s", [self.r.choice(ARGV)], flags=self.r.choice([0, 0, 0, 1, 2]))
+                    acts.append(("send", a, m.marshal()))
+                    self.calls.append((a, dest, s))
+            acts.insert(self.r.randint(0, len(acts)), ("close", v))
+            del self.open[v]
+            self.ops.extend(acts)
+        else:
+            for _ in range(self.r.choice([2, 2, 3, 4])):
+                self.step(self.r.choice(["call", "call", "signal", "reply", "close"]))
+        subs = self.ops[n0:]
+        del self.ops[n0:]
+        if subs and all(o[0] in ("send", "close") and o[1] != 0 and (o[0] == "close" or len(o[2]) < 1500) for o in subs) and \
+                all(sum(len(o[2]) for o in subs if o[0] == "send" and o[1] == c) < 1900 for c in {o[1] for o in subs}):
+            self.ops.append(("frozen", subs)); self.count("frozen")
+        else:
+            self.ops.extend(subs)
+
     # ---- op kinds
     def pick(self):
         kinds = list(self.w)
@@ -149,6 +183,8 @@ class Gen:
         if k == "sleep":
             self.ops.append(("sleep",)); self.count("sleep"); self.calls = []
             return
+        if k == "frozen":
+            self.do_frozen(); return
         if k == "stall":
             cands = [c for c, v in self.open.items() if v["active"] and c != 0 and c not in self.stalled]
             if cands and len(self.stalled) < 2:
@@ -355,7 +391,13 @@ class Gen:
             lis = [c for c, v in self.open.items() if v["active"] and c != cid]
             if lis:
                 self.bus_call(r.choice(lis), "AddMatch", "s", [b"type='signal'"])
-        if x < 0.45:
+        if getattr(self, "bigheader", 0) and others and r.random() < self.bigheader:
+            # a header far larger than a socket buffer: the bus cannot write it to the recipient in one go
+            path = "/" + "/".join("p%05d" % r.randrange(100000) for _ in range(r.choice([40000, 70000, 120000])))
+            self.count("fdsend:big-header")
+            m = signal_msg(self.serial(cid), path, "a.b", "M", "s", [b"big"], dest=r.choice(others).decode()) if r.random() < 0.5 else \
+                method_call(self.serial(cid), r.choice(others).decode(), path, "a.b", "M", "s", [b"big"], flags=1)
+        elif x < 0.45:
             sig, vals = self.body()
             dest = None if r.random() < 0.5 else dest_for()
             m = signal_msg(self.serial(cid), r.choice(PATHS).decode(), r.choice(IFACES).decode(), r.choice(MEMBERS).decode(), sig, vals, dest=dest)
